@@ -29,6 +29,10 @@ const smtPrelude = `(set-option :print-success false)
 // idxAxiom defines the element-position function (see TB.Idx).
 const idxAxiom = "(assert (forall ((o Int) (i Int)) (! (= (idx o i) (+ o i)) :pattern ((idx o i)))))\n"
 
+// getbitAxiom: zero has no bits set.
+const getbitAxiom = "(assert (forall ((c Int)) (! (= (getbit 0 c) 0) :pattern ((getbit 0 c)))))\n" +
+	"(assert (forall ((a Int) (c Int)) (! (and (<= 0 (getbit a c)) (<= (getbit a c) 1)) :pattern ((getbit a c)))))\n"
+
 // logNode is the fork tree of a function's log: entries first, then the alternatives.
 type logNode struct {
 	entries  []LogEntry
@@ -94,6 +98,9 @@ func (e *Engine) BuildScripts(fr *FuncResult, timeoutMS int, maxChecks int) []st
 	header := smtPrelude + sc.Header()
 	if strings.Contains(header, "(declare-fun idx ") {
 		header += idxAxiom
+	}
+	if strings.Contains(header, "(declare-fun getbit ") {
+		header += getbitAxiom
 	}
 	for _, l := range lemmas {
 		header += "(assert " + sc.TermText(l) + ")\n"
@@ -237,6 +244,9 @@ func (e *Engine) StandaloneScript(o *Obl, withModel bool, vals []*Term) string {
 	sb.WriteString(sc.Header())
 	if strings.Contains(sc.Header(), "(declare-fun idx ") {
 		sb.WriteString(idxAxiom)
+	}
+	if strings.Contains(sc.Header(), "(declare-fun getbit ") {
+		sb.WriteString(getbitAxiom)
 	}
 	for _, l := range lemmas {
 		sb.WriteString("(assert " + sc.TermText(l) + ")\n")
